@@ -61,6 +61,7 @@ func newModel(thorough bool) *chainprop.Model {
 	)
 	add := func(names ...string) { m.Acts = append(m.Acts, m.Drive(names...)) }
 	add("online V1", "online P")
+	add("changeGod G->X2") // god-only committees must follow the god address on a long-running node too
 	add("online V2", "offline V1")
 	add("offline P")
 	add("delegate D1->P", "delegate D2->P")
@@ -213,7 +214,7 @@ func main() {
 		chainmc.ReplayFile(run, m)
 		return
 	}
-	run.SetBudget(5*60e9, 40*60e9)
+	run.SetBudget(5*60e9, 20*60e9)
 	depth := 3
 	if run.Thorough() {
 		depth = 5
